@@ -407,6 +407,12 @@ func (r *RejectReasonData) UnmarshalCBOR(data []byte) error {
 			len(arr),
 		)
 	}
+	if len(arr) > 2 {
+		return fmt.Errorf(
+			"RejectReasonData array must have at most 2 elements (type, message), got %d",
+			len(arr),
+		)
+	}
 
 	// Extract type (first element)
 	typeVal, ok := arr[0].(uint64)
